@@ -194,7 +194,27 @@ def run_harness(h, opts):
          "--generate-function-body", ".*", "--drop-unused-functions", out, out],
         ["goto-instrument", "--ensure-one-backedge-per-target", out, out],
     ]
-    for st in steps:
+    for si, st in enumerate(steps):
+        if si == 3 and opts.get("cut"):
+            # "cut with a checked assumption": the bodies of the matching functions are removed, the next step gives them
+            # the body assert(false); assume(false). If the solver can reach one of them the generated assertion fails
+            # and the harness is reported as inconclusive (class `unsupported`), never as held.
+            rc, l0 = sh(["goto-instrument", "--list-goto-functions", out], timeout=120)
+            cutm = []
+            for line in l0.splitlines():
+                mm = re.match(r"^(.*?) /\* (_R\S+?)(, body not available)? \*/\s*$", line.strip())
+                if mm and not mm.group(3) and any(re.fullmatch(rx, mm.group(1)) for rx in opts["cut"]):
+                    cutm.append((mm.group(1), mm.group(2)))
+            res["cut"] = [c[0] for c in cutm]
+            if cutm:
+                c = ["goto-instrument"]
+                for _p, m in cutm:
+                    c += ["--remove-function-body", m]
+                rc, o = sh(c + [out, out], timeout=600)
+                if rc != 0:
+                    res["detail"] = "pipeline step failed: remove-function-body\n%s" % o[-2000:]
+                    res["wall_s"] = time.time() - t0
+                    return res
         rc, o = sh(st, timeout=600)
         if rc != 0:
             res["detail"] = "pipeline step failed: %s\n%s" % (" ".join(st[:3]), o[-2000:])
@@ -317,7 +337,7 @@ def run_harness(h, opts):
         if st == "FAILURE":
             if pc == "unwind" or "unwinding assertion" in ent["description"]:
                 res["unwind_failed"].append(ent)
-            elif pc == "unsupported_construct" or pc == "sanity_check":
+            elif pc == "unsupported_construct" or pc == "sanity_check" or "undefined function should be unreachable" in ent["description"]:
                 res["unsupported_failed"].append(ent)
             else:
                 res["failed"].append(ent)
@@ -643,7 +663,15 @@ def do_check(pid, tier, seed, only=None, keep=False, jobs=None, no_replay=False)
                 r["detail"] += "failed in CBMC; replay budget (%d harnesses) used by other failing harnesses of this run" % MAX_REPLAY
                 continue
             o = harness_opts(cfg, hn, tier)
-            tests, pout = playback_generate(dst, cfg, r["pretty"], timeout=max(2 * o.get("timeout", 600), 600), src_rel=r.get("src"))
+            if o.get("input_free"):
+                # the harness draws no symbolic input (no kani::any): the native replay is the harness itself run as a test
+                tname = "kani_concrete_playback_%s_direct" % hn
+                with open(os.path.join(dst, r.get("src")), "a") as f:
+                    f.write("\n// ---- replay of an input-free harness ----\n#[test]\nfn %s() {\n    let concrete_vals: Vec<Vec<u8>> = vec![];\n"
+                            "    kani::concrete_playback_run(concrete_vals, %s);\n}\n" % (tname, hn))
+                tests, pout = [tname], ""
+            else:
+                tests, pout = playback_generate(dst, cfg, r["pretty"], timeout=max(2 * o.get("timeout", 600), 600), src_rel=r.get("src"))
             if not tests:
                 log("[%s] %s: no concrete playback test generated\n%s" % (pid, hn, pout[-1500:]))
                 r["status"] = "unreplayed"
